@@ -467,6 +467,25 @@ pub fn generate(check: &str, tier: &str, seed: u64) -> Scenario {
             }
             let mut sim = sim_params_seq(&mut cr);
             sim.latency_pm = 0;
+            if cr.one_in(5) {
+                // the store's own timer-driven merge / sync tasks make the failing call
+                cfg.merge_always = true;
+                cfg.check_interval_ms = 100;
+                cfg.jitter = 0.0;
+                cfg.trig_frag = 0.0;
+                cfg.trig_dead = 0;
+                cfg.thr_small = u64::MAX;
+                if cr.one_in(2) {
+                    cfg.sync = SyncCfg::IntervalMs(70);
+                }
+                let m = ops.len();
+                for j in (0..m).rev() {
+                    if r.one_in(3) {
+                        ops.insert(j, Op::Pass(150));
+                    }
+                }
+                ops.push(Op::Pass(150));
+            }
             Scenario {
                 check: check.to_string(),
                 seed,
